@@ -26,6 +26,10 @@ Step(mm, e) ==
     [] e.ev = "wret"    -> OnWRet(mm, e)
     [] e.ev = "cnt"     -> OnCnt(mm, e)
     [] e.ev = "hook"    -> OnHook(mm, e)
+    [] e.ev = "qcall"   -> OnQueryCall(mm, e)
+    [] e.ev = "scrape"  -> OnScrape(mm, e)
+    [] e.ev = "api"     -> OnApi(mm, e)
+    [] e.ev = "mislog"  -> OnMisLog(mm, e)
     [] e.ev = "cancel"  -> OnCancel(mm, e)
     [] e.ev = "link"    -> OnLink(mm, e)
     [] e.ev = "hold"    -> OnHold(mm, e)
